@@ -76,5 +76,10 @@ type SubFunc func(args []string) int
 
 var subs = map[string]SubFunc{}
 
-func RegisterSub(name string, f SubFunc) { subs[name] = f }
+func RegisterSub(name string, f SubFunc) {
+	if _, ok := subs[name]; ok {
+		panic("duplicate sub-command " + name)
+	}
+	subs[name] = f
+}
 func Sub(name string) (SubFunc, bool)   { f, ok := subs[name]; return f, ok }
